@@ -43,7 +43,7 @@ ASSUMPTIONS = [
 ]
 
 
-def _env(requires_scan: bool, kind: str = "routed", level: str = "nodes"):
+def _env(requires_scan: bool, kind: str = "routed", level: str = "nodes", family: int = -1):
     """level 'nodes': the scan options are declared for all nodes; 'host': each host entry declares them itself and the
     nodes level declares the OPPOSITE (the host's own declaration wins)."""
     from primaite.session.environment import PrimaiteGymEnv
@@ -53,6 +53,11 @@ def _env(requires_scan: bool, kind: str = "routed", level: str = "nodes"):
     cfg["simulation"]["network"]["nmne_config"] = {"capture_nmne": True, "nmne_capture_keywords": ["DELETE"]}
     opts = cfg["agents"][-1]["observation_space"]["options"]["components"][0]["options"]
     for key in ("services_requires_scan", "applications_requires_scan", "file_system_requires_scan"):
+        if level == "mixed":
+            # the three families are configured DIFFERENTLY: the family under test gets `requires_scan`, the others the opposite
+            mine = {0: "services_requires_scan", 3: "applications_requires_scan", 1: "file_system_requires_scan", 4: "file_system_requires_scan"}.get(family)
+            opts[key] = requires_scan if key == mine else (not requires_scan)
+            continue
         if level == "host":
             opts[key] = not requires_scan
             for h in opts["hosts"]:
@@ -91,7 +96,7 @@ def host_faithful(
     from primaite.simulator.system.software import SoftwareHealthState as SH
 
     with concrete():
-        env, cfg = _env(scan, level=level)
+        env, cfg = _env(scan, level=level, family=grp if isinstance(grp, int) else -1)
         game = env.game
         sim = game.simulation
         node = sim.network.get_node_by_hostname("client_1")
@@ -154,15 +159,18 @@ def host_faithful(
     else:
         cover("node_on")
         check(s1["operating_status"] == svc.operating_state.value, "service operating_status differs from the service's state")
-        check(s1["health_status"] == (svc.health_state_visible if scan else svc.health_state_actual).value, lambda: f"service health_status is not the {'visible' if scan else 'true'} health")
+        scan_svc = scan if (level != "mixed" or grp == 0) else (not scan)
+        scan_app = scan if (level != "mixed" or grp == 3) else (not scan)
+        scan_fs = scan if (level != "mixed" or grp in (1, 4)) else (not scan)
+        check(s1["health_status"] == (svc.health_state_visible if scan_svc else svc.health_state_actual).value, lambda: f"service health_status is not the {'visible' if scan_svc else 'true'} health")
         check(a1["operating_status"] == app.operating_state.value, "application operating_status differs")
-        check(a1["health_status"] == (app.health_state_visible if scan else app.health_state_actual).value, lambda: f"application health_status is not the {'visible' if scan else 'true'} health")
+        check(a1["health_status"] == (app.health_state_visible if scan_app else app.health_state_actual).value, lambda: f"application health_status is not the {'visible' if scan_app else 'true'} health")
         te = th["app_executions"]
         check(a1["num_executions"] == _bin(app.num_executions, te["low"], te["medium"], te["high"]), "application num_executions bin differs from the documented binning")
-        check(fi["health_status"] == (f.visible_health_status if scan else f.health_status).value, lambda: f"file health_status is not the {'visible' if scan else 'true'} health")
+        check(fi["health_status"] == (f.visible_health_status if scan_fs else f.health_status).value, lambda: f"file health_status is not the {'visible' if scan_fs else 'true'} health")
         tf = th["file_access"]
         check(fi["num_access"] == _bin(f.num_access, tf["low"], tf["medium"], tf["high"]), "file num_access bin differs from the documented binning")
-        check(fo["health_status"] == (folder.visible_health_status if scan else folder.health_status).value, lambda: f"folder health_status is not the {'visible' if scan else 'true'} health")
+        check(fo["health_status"] == (folder.visible_health_status if scan_fs else folder.health_status).value, lambda: f"folder health_status is not the {'visible' if scan_fs else 'true'} health")
         check(n1["nic_status"] == (1 if node.network_interface[1].enabled else 2), "nic_status differs from the interface's enabled flag")
         nc, nd = node.file_system.num_file_creations, node.file_system.num_file_deletions
         check(h["num_file_creations"] == (nc if nc < 3 else 3), "num_file_creations differs from the capped per-tick count")
@@ -530,7 +538,9 @@ HARNESSES = {
         "fn": host_faithful,
         "quick": [{"fixed": {"grp": g, "scan": s}, "timeout": 280} for g in range(5) for s in (False, True)]
         # the scan options declared per host, the nodes level declaring the opposite
-        + [{"fixed": {"grp": g, "scan": s, "level": "host"}, "timeout": 280} for g, s in ((0, False), (3, True), (1, False), (4, True))],
+        + [{"fixed": {"grp": g, "scan": s, "level": "host"}, "timeout": 280} for g, s in ((0, False), (3, True), (1, False), (4, True))]
+        # the three scan options set differently from each other (the family under test against the other two)
+        + [{"fixed": {"grp": g, "scan": s, "level": "mixed"}, "timeout": 280} for g, s in ((0, True), (3, True), (3, False), (1, True))],
         "thorough": [{"fixed": {"grp": g, "scan": s, "level": lv}, "timeout": 1500} for g in range(5) for s in (False, True) for lv in ("nodes", "host")],
         "cover": ["node_on", "node_not_on"],
         "bounds": "per family every member of the real enums for operating state and for actual and visible health independently, unbounded counts; scan-gated and true-health configurations, declared for all nodes or per host (with the opposite declared at the nodes level)",
